@@ -238,6 +238,14 @@ def make_trapezoid(
             f'Refined slew rate ({abs(amplitude2) / fall_time:0.0f} Hz/m/s) for ramp down is larger than max ({max_slew:0.0f} Hz/m/s).'
         )
 
+    if -eps < flat_time < 0:
+        flat_time = 0.0  # rounding noise of an exactly triangular request
+    if rise_time <= 0 or fall_time <= 0 or flat_time < 0:
+        raise ValueError(
+            f'Invalid timing: rise_time ({rise_time}) and fall_time ({fall_time}) must be positive and '
+            f'flat_time ({flat_time}) must not be negative.'
+        )
+
     grad = SimpleNamespace()
     grad.type = 'trap'
     grad.channel = channel
